@@ -143,6 +143,7 @@ def run(ctx):
                         rule='INSORIENT', what='a cell-creating insertion primitive (fill_cavity / extend_hull)',
                         scope=lambda q_, b_: q_.rsplit('::', 1)[-1].startswith('insert'))
         _keyremap(ctx, cfg, prog)
+        _policykeep(ctx, cfg, prog, ctx.mod(cfg))
         import twins
         ctx.rule('TWIN', 'insert and insert_with_statistics call the same functions (statistics bookkeeping aside)')
         twins.check(ctx, cfg, prog, 'TWIN', lambda q_: q_.rsplit('::', 1)[-1].startswith('insert'), 1)
@@ -233,6 +234,21 @@ def run(ctx):
 
 
 KEYREMAP_CALL = 'core::delaunay_triangulation::DelaunayTriangulation::maybe_repair_after_insertion'
+
+
+def _policykeep(ctx, cfg, prog, mod):
+    """The clause "when the per-insertion Delaunay check is enabled a reported insertion leaves the Delaunay level
+    certified" is about the policy the caller configured: an insertion whose post-insertion repair replaces the whole
+    triangulation by a rebuilt candidate (`*self = candidate`, or the same field by field) must carry the caller's
+    check / repair policies and the insertion counter over, or every later insertion runs under the defaults."""
+    import side
+    ctx.rule('POLICYKEEP', 'a rebuilt candidate that replaces the receiver carries the configured check / repair policies and '
+                           'the insertion counter')
+    keep, sites = side.keep_table(prog, mod)
+    for owner, (ok, d) in sorted(keep.get('insertion_state', {}).items()):
+        ctx.ob('POLICYKEEP', owner, cfg, ok, 'replacement of the receiver (or of its insertion_state) in %s: %s' % (
+            owner.rsplit('::', 1)[-1], d))
+    ctx.floor('receiver replacement sites', 1, len(sites), cfg)
 
 
 def _keyremap(ctx, cfg, prog):
